@@ -31,6 +31,8 @@ type Cfg struct {
 	TOLostPermille     uint64      `json:"timeout_lost_permille,omitempty"`
 	TOAppliedPermille  uint64      `json:"timeout_applied_permille,omitempty"`
 	FollowerFirst      bool        `json:"follower_first,omitempty"` // followers start before any leader write
+	ReadBusyPermille   uint64      `json:"read_busy_permille,omitempty"`
+	NoReplication      bool        `json:"no_replication,omitempty"` // follower nodes run no replication manager (C15: only the harness leases)
 }
 
 // Step is one kernel step.
